@@ -103,24 +103,41 @@ def generate(tier, rng):
     return c
 
 
+def nonascii_in_placeholder(lit):
+    s = lit.replace('{{', '').replace('}}', '')
+    depth = False
+    for ch in s:
+        if ch == '{':
+            depth = True
+        elif ch == '}':
+            depth = False
+        elif depth and ord(ch) > 127:
+            return True
+    return False
+
+
 def modea_literals(res, tier):
-    """EVERY literal up to a length bound over {'{', '}', 'a', ':', '0', ' '} as the to_string of a unit, a tuple and a
+    """EVERY literal up to a length bound over {'{', '}', 'a', ':', '0', ' ', 'é'} as the to_string of a unit, a tuple and a
     named variant: the macro's accept / reject decision (its placeholder scanner + the per-kind rules) vs the model"""
     import itertools
     from .. import malformed, modea, leanside
     maxlen = 5 if tier == 'quick' else 7
-    alphabet = ['{', '}', 'a', ':', '0', ' ']
+    alphabet = ['{', '}', 'a', ':', '0', ' ', 'é']
     ok, err, wall, binp = modea.build()
     if not ok:
         raise RuntimeError('mode A build failed:\n' + err)
     items = []
     n = 0
+    skipped = 0
     for L in range(0, maxlen + 1):
-        for t in itertools.product(alphabet, repeat=L):
+        for t in itertools.product(alphabet if L <= 6 else alphabet[:-1], repeat=L):  # length 7 (thorough): ASCII symbols only
             lit = ''.join(t)
             for shape, v in (('unit', malformed.unit('V', [('to_string', lit)])),
                              ('tuple', malformed.tup('V', ['u8'], [('to_string', lit)])),
                              ('named', malformed.named('V', [('a', 'u8')], [('to_string', lit)]))):
+                if shape == 'named' and nonascii_in_placeholder(lit):
+                    skipped += 1   # non-ASCII identifiers (Unicode XID tables) are outside the model's ASCII `isIdentLike`
+                    continue
                 items.append({'id': 'l%d' % n, 'name': 'Lit%d' % n, 'kind': 'enum', 'lifetimes': 0, 'eattrs': [], 'dattrs': [],
                               'variants': [v, malformed.unit('Other')], 'shape': shape, 'lit': lit})
                 n += 1
@@ -144,7 +161,7 @@ def modea_literals(res, tier):
                 res.violation({'kind': 'disagreement', 'label': 'modeA', 'derive': 'Display', 'rule': 'format-literal/' + it['shape'],
                                'source': malformed.render_source(it), 'model': m, 'impl': o[:200],
                                'what': 'accept/reject of a to_string literal differs from the model of the placeholder scanner'})
-    res.cov['modeA_literals'] = {'literals': n // 3, 'max_len': maxlen, 'alphabet': ''.join(alphabet), 'items': n, 'disagreements': bad,
+    res.cov['modeA_literals'] = {'literals': (n + skipped) // 3, 'named_skipped_nonascii_placeholder': skipped, 'max_len': maxlen, 'alphabet': ''.join(alphabet), 'items': n, 'disagreements': bad,
                                  'distribution': dist, 'exhaustive': True}
     res.cov['evaluations'] = res.cov.get('evaluations', 0) + n
 
